@@ -66,20 +66,20 @@ _built_cert = False
 
 
 def cargo_build_cert():
-    """The same harness with the device's certification-protocol handler compiled in (cargo feature `cert` ->
-    lorawan-device/certification), in its own target directory."""
+    """The same harness with the device's optional handlers compiled in (cargo features `cert` ->
+    lorawan-device/certification and `mc` -> lorawan-device/multicast), in its own target directory."""
     global _built_cert
     if _built_cert:
         return
     cargo_build()
     env = dict(os.environ, CARGO_NET_OFFLINE="true")
     t0 = time.time()
-    p = subprocess.run(["cargo", "build", "--offline", "--bin", "vh", "--features", "cert", "--target-dir", "target-cert"],
+    p = subprocess.run(["cargo", "build", "--offline", "--bin", "vh", "--features", "cert,mc", "--target-dir", "target-feat"],
                        cwd=HARNESS, env=env, stdout=subprocess.PIPE, stderr=subprocess.STDOUT, text=True)
     if p.returncode != 0:
         log(p.stdout[-6000:])
-        raise ToolError("harness build (certification feature) failed")
-    log(f"[build] harness (certification feature) built in {time.time()-t0:.1f}s")
+        raise ToolError("harness build (certification + multicast features) failed")
+    log(f"[build] harness (certification + multicast features) built in {time.time()-t0:.1f}s")
     _built_cert = True
 
 
@@ -88,7 +88,7 @@ def run_vh(cmd, out, shards=1, extra=(), timeout=3600, check=True, cert=False):
     cargo_build()
     if cert:
         cargo_build_cert()
-    args = [os.path.join(HARNESS, "target-cert", "debug", "vh") if cert else VH, cmd, "--out", out, "--shards", str(shards), "--tier", tier(), "--seed", str(seed())] + list(extra)
+    args = [os.path.join(HARNESS, "target-feat", "debug", "vh") if cert else VH, cmd, "--out", out, "--shards", str(shards), "--tier", tier(), "--seed", str(seed())] + list(extra)
     t0 = time.time()
     p = subprocess.run(args, stdout=subprocess.PIPE, stderr=subprocess.PIPE, text=True, timeout=timeout)
     if check and p.returncode != 0:
